@@ -19,7 +19,7 @@ META = {
     "workers": {"quick": 8, "thorough": 16},
     "timeout": {"quick": 600, "thorough": 5400},
     "deciding": [
-        "C11.kmesh.n",
+        "C11.kmesh.n", "C11.operand_untouched", "C11.repeatable",
         "C11.kmesh.frequencies",
         "C11.kmesh.names_units",
         "C11.dft",
@@ -57,6 +57,7 @@ META = {
 import numpy as np  # noqa: E402
 
 import discretisedfield as df  # noqa: E402
+from dfmon import core  # noqa: E402
 from workloads import gen  # noqa: E402
 
 TOL_DFT = 1e-10
@@ -227,12 +228,29 @@ def zero_index(su, rfft):
 
 
 # ------------------------------------------------------------------ kinds
+def operand_kept(ctx, su, operand, digest_before, transform, again, first):
+    """History: the field that was transformed is read again afterwards.  It still holds
+    what the transform was computed from (a transform that works in place on its input
+    returns the right spectrum once and leaves the user with a different field), and the
+    same call gives the same result again."""
+    ctx.check("C11.operand_untouched", core.field_digest(operand) == digest_before,
+              **su.info(transform=transform, operand_dtype=str(operand.array.dtype)))
+    second = again()
+    scale = max(float(np.max(np.abs(first.array))) if first.array.size else 0.0, 1e-300)
+    ctx.check("C11.repeatable",
+              second.array.shape == first.array.shape
+              and bool(np.all(np.abs(second.array - first.array) <= 1e-12 * scale)),
+              **su.info(transform=transform, operand_dtype=str(operand.array.dtype)))
+
+
 def complex_transform(ctx):
     su = Setup(ctx, real=ctx.rng.random() < 0.5)
     su.sig(ctx, "fftn")
     ctx.sample({"kind": "fftn", **su.info(), "vdims": su.vdims, "mapping": su.mapping})
     f = su.field()
+    d0 = core.field_digest(f)
     F = f.fftn()
+    operand_kept(ctx, su, f, d0, "fftn", lambda: f.fftn(), F)
     n_ok, ks = check_kmesh(ctx, su, F.mesh, False, "fftn")
     check_labels_forward(ctx, su, f, F, "fftn")
     info = su.info(transform="fftn")
@@ -247,7 +265,9 @@ def complex_transform(ctx):
         ctx.check("C11.zero_frequency",
                   np.all(np.abs(F.array[z] - plain) <= 1e-12 * max(su.total, 1e-300)),
                   index=z, got=F.array[z], expected=plain, **info)
+    dF = core.field_digest(F)
     b = F.ifftn()
+    operand_kept(ctx, su, F, dF, "ifftn", lambda: F.ifftn(), b)
     check_back(ctx, su, f, b, "ifftn(fftn)", "C11.inverse.values")
     # the mesh-level transforms give the same meshes
     km = su.mesh.fftn()
@@ -260,7 +280,10 @@ def real_transform(ctx):
     su.sig(ctx, "rfftn")
     nd, n = su.nd, su.n
     f = su.field()
+    d0 = core.field_digest(f)
     R = f.rfftn()
+    operand_kept(ctx, su, f, d0, "rfftn", lambda: f.rfftn(), R)
+    dR = core.field_digest(R)
     info = su.info(transform="rfftn")
     n_ok, ks = check_kmesh(ctx, su, R.mesh, True, "rfftn")
     check_labels_forward(ctx, su, f, R, "rfftn")
@@ -289,6 +312,7 @@ def real_transform(ctx):
                            what=su.info(transform="irfftn(shape=n)",
                                         last_axis_class=su.classes()[-1]))
     if okc:
+        operand_kept(ctx, su, R, dR, "irfftn", lambda: R.irfftn(shape=shape), b)
         check_back(ctx, su, f, b, "irfftn(rfftn, shape=n)", "C11.rfft.inverse_with_shape")
     if n[-1] % 2 == 0:
         okc, b = ctx.expect_ok("C11.rfft.inverse_accepted", lambda: R.irfftn(),
